@@ -96,9 +96,12 @@ struct HArray : public HashTable<Key_T, HAItem_T<Key_T, Value_T>> {
     using BaseT::Storage;
 
     void operator+=(HArray &&src) {
-        const SizeT  n_size   = (Size() + src.Size());
-        HItem       *src_item = src.Storage();
-        const HItem *src_end  = (src_item + src.Size());
+        // 'src' may be stored inside this table (a member of the object that is merged into): it is taken out first,
+        // so that neither the resize below nor an overwritten member can release it while it is read.
+        HArray       tmp{Memory::Move(src)};
+        const SizeT  n_size   = (Size() + tmp.Size());
+        HItem       *src_item = tmp.Storage();
+        const HItem *src_end  = (src_item + tmp.Size());
 
         if (n_size > Capacity()) {
             resize(n_size);
@@ -120,10 +123,10 @@ struct HArray : public HashTable<Key_T, HAItem_T<Key_T, Value_T>> {
             ++src_item;
         }
 
-        Memory::Deallocate(src.getHashTable());
-        src.clearHashTable();
-        src.setSize(0);
-        src.setCapacity(0);
+        Memory::Deallocate(tmp.getHashTable());
+        tmp.clearHashTable();
+        tmp.setSize(0);
+        tmp.setCapacity(0);
     }
 
     void operator+=(const HArray &src) {
@@ -184,7 +187,9 @@ struct HArray : public HashTable<Key_T, HAItem_T<Key_T, Value_T>> {
         return Get(key.First(), key.Length());
     }
 
-    Value_T &operator[](Key_T &&key) {
+    Value_T &operator[](Key_T &&key_) {
+        Key_T key{Memory::Move(key_)}; // may be stored inside this table
+
         if (Size() == Capacity()) {
             expand();
         }
@@ -201,7 +206,11 @@ struct HArray : public HashTable<Key_T, HAItem_T<Key_T, Value_T>> {
         return item->Value;
     }
 
-    void Insert(Key_T &&key, Value_T &&value) {
+    void Insert(Key_T &&key_, Value_T &&value_) {
+        // The arguments may be stored inside this table; they are taken out before it grows.
+        Key_T   key{Memory::Move(key_)};
+        Value_T value{Memory::Move(value_)};
+
         if (Size() == Capacity()) {
             expand();
         }
